@@ -5,6 +5,7 @@ package sm2_test
 
 import (
 	"bytes"
+	crand "crypto/rand"
 	"errors"
 	"fmt"
 	"io"
@@ -12,6 +13,7 @@ import (
 	"os"
 	"syscall"
 	"testing"
+	"time"
 
 	"github.com/bilibili/smgo/sm2"
 	"pgregory.net/rapid"
@@ -91,6 +93,27 @@ type c19Script struct {
 	withData  bool
 	chunks    []int
 	transient bool
+	viaGlobal bool // install the scripted source as crypto/rand.Reader and hand THAT variable to the library
+}
+
+// c19Call runs the library call; with viaGlobal the scripted reader is first installed as the process-wide crypto/rand.Reader and the
+// library receives the value of that variable (what most callers pass). A call that has not returned after 60 s (four orders of
+// magnitude above its normal duration) on a source that keeps failing is reported as not terminating.
+func c19Call(s *c19Script, rd io.Reader, f func(io.Reader)) (pan interface{}, hung bool) {
+	if s.viaGlobal {
+		old := crand.Reader
+		crand.Reader = rd
+		defer func() { crand.Reader = old }()
+		rd = crand.Reader
+	}
+	done := make(chan interface{}, 1)
+	go func() { done <- vt.Catch(func() { f(rd) }) }()
+	select {
+	case pan = <-done:
+		return pan, false
+	case <-time.After(60 * time.Second):
+		return nil, true
+	}
 }
 
 func (s *c19Script) reader() *faultyReader {
@@ -148,7 +171,11 @@ func c19RunSign(t vt.TB, rec *stats.Recorder, s *c19Script, d *big.Int, denc, e 
 	rd := s.reader()
 	var r, sg []byte
 	var err error
-	p := vt.Catch(func() { r, sg, err = sm2.SignHashed(rd, denc, e) })
+	p, hung := c19Call(s, rd, func(src io.Reader) { r, sg, err = sm2.SignHashed(src, denc, e) })
+	if hung {
+		vt.Fail(t, rec, "C19:sign:does-not-return", "SignHashed did not return within 60 s on a failing source (fail at byte %d, via crypto/rand.Reader=%v)", s.failAt, s.viaGlobal)
+		return
+	}
 	c19Judge(t, rec, "sign", s, rd, p, err, r == nil && sg == nil, func() bool {
 		wr, ws, _, _, werr := sm2ref.Sign(d, e, s.stream)
 		return werr == nil && bytes.Equal(r, gen.Pad32(wr)) && bytes.Equal(sg, gen.Pad32(ws))
@@ -159,7 +186,11 @@ func c19RunKeygen(t vt.TB, rec *stats.Recorder, s *c19Script) {
 	rd := s.reader()
 	var priv, x, y []byte
 	var err error
-	p := vt.Catch(func() { priv, x, y, err = sm2.GenerateKey(rd) })
+	p, hung := c19Call(s, rd, func(src io.Reader) { priv, x, y, err = sm2.GenerateKey(src) })
+	if hung {
+		vt.Fail(t, rec, "C19:keygen:does-not-return", "GenerateKey did not return within 60 s on a failing source (fail at byte %d, via crypto/rand.Reader=%v)", s.failAt, s.viaGlobal)
+		return
+	}
 	if p == nil && err != nil && priv != nil {
 		rec.Note("GenerateKey returns a non-nil priv buffer together with an error (recorded, not judged: the statement forbids a public key or signature)")
 	}
@@ -209,7 +240,7 @@ func c19Chunks(t *rapid.T) []int {
 
 func TestVerif_C19_Sign(t *testing.T) {
 	rec := stats.Get("C19", "sign")
-	rec.Rule("rapid: SignHashed under a scripted reader: stream = 0..4 candidates that must be rejected (k>=n, k=0, r=0, r+k=n, s=0 by construction) + acceptable + trailing; reads chunked (full, byte-wise, mixed sizes incl. up to 3 consecutive empty successful reads); first failure at a drawn byte offset (anywhere in 0..len, weighted to the inside of each candidate and to candidate boundaries) with io.EOF / io.ErrUnexpectedEOF / a custom error / EAGAIN / EINTR / a PathError / a wrapped error whose Temporary() is true / a deadline error, alone or together with the final chunk, the source either staying failed or RECOVERING after having reported the error once; or no failure. Oracle (ReadFull model): failure before the last needed byte -> err != nil, r = s = nil, no panic; otherwise success equal to the reference signature and no byte consumed beyond the accepted candidate. Non-trivial: failure strictly inside a candidate, or after >= 1 rejected candidate, or chunked reads; distinct by (stream, failAt, err, chunks).")
+	rec.Rule("rapid: SignHashed under a scripted reader: stream = 0..4 candidates that must be rejected (k>=n, k=0, r=0, r+k=n, s=0 by construction) + acceptable + trailing; reads chunked (full, byte-wise, mixed sizes incl. up to 3 consecutive empty successful reads); first failure at a drawn byte offset (anywhere in 0..len, weighted to the inside of each candidate and to candidate boundaries) with io.EOF / io.ErrUnexpectedEOF / a custom error / EAGAIN / EINTR / a PathError / a wrapped error whose Temporary() is true / a deadline error, alone or together with the final chunk, the source either staying failed or RECOVERING after having reported the error once; or no failure. One call in four installs the scripted source as the process-wide crypto/rand.Reader and passes that variable. Oracle (ReadFull model): failure before the last needed byte -> err != nil, r = s = nil, no panic; otherwise success equal to the reference signature and no byte consumed beyond the accepted candidate. Non-trivial: failure strictly inside a candidate, or after >= 1 rejected candidate, or chunked reads; distinct by (stream, failAt, err, chunks).")
 	t.Cleanup(stats.FlushAll)
 	rapid.Check(t, func(t *rapid.T) {
 		foreignCalls(t, rec, "foreign") // state left behind by other entry points must not matter
@@ -227,6 +258,8 @@ func TestVerif_C19_Sign(t *testing.T) {
 		s.err = c19Errs[gen.Uniform(t, "err", 0, len(c19Errs)-1)]
 		s.withData = gen.Bool(t, "withData")
 		s.transient = gen.Bool(t, "transient")
+		s.viaGlobal = gen.Uniform(t, "viaGlobal", 0, 3) == 0
+		rec.Tally(fmt.Sprintf("source-is-crypto/rand.Reader:%v", s.viaGlobal))
 		inside := s.failAt >= 0 && s.failAt%32 != 0 && s.failAt < s.need
 		nt := inside || (s.failAt >= 32 && len(c.Rejected) > 0) || s.chunks != nil
 		rec.Case(stats.Hash(c.Stream, c.DEnc, c.E, []byte(fmt.Sprint(s.failAt, s.err, s.withData, s.chunks))), nt,
@@ -267,6 +300,8 @@ func TestVerif_C19_Keygen(t *testing.T) {
 		s.err = c19Errs[gen.Uniform(t, "err", 0, len(c19Errs)-1)]
 		s.withData = gen.Bool(t, "withData")
 		s.transient = gen.Bool(t, "transient")
+		s.viaGlobal = gen.Uniform(t, "viaGlobal", 0, 3) == 0
+		rec.Tally(fmt.Sprintf("source-is-crypto/rand.Reader:%v", s.viaGlobal))
 		inside := s.failAt >= 0 && s.failAt%32 != 0 && s.failAt < s.need
 		nt := inside || (s.failAt >= 32 && nrej > 0) || s.chunks != nil
 		rec.Case(stats.Hash(stream, []byte(fmt.Sprint(s.failAt, s.err, s.withData, s.chunks))), nt,
